@@ -1,7 +1,7 @@
 //! C08 — runtime limits stop runaway scripts and cannot be intercepted.
 
 use crate::driver::{CaseOut, Env, Prop, Stream, Tier};
-use crate::genp::limits::{LOOPS, ROUTES, WRAPPERS, generate};
+use crate::genp::limits::{FRAMELESS, LOOPS, ROUTES, WRAPPERS, generate, generate_frameless};
 use crate::run::{Completion, RunCfg, apply_cfg, classify, install_print, panic_signature, take_last_panic, throw_class};
 use crate::tape::Tape;
 use boa_engine::{Context, Source, js_string};
@@ -131,10 +131,10 @@ impl Prop for C08 {
     }
     fn streams(&self, tier: Tier) -> Vec<Stream> {
         let m = if tier == Tier::Quick { 1 } else { 30 };
-        vec![Stream::new("limits", 12_000 * m, 60).batch(500), Stream::new("product", (ROUTES.len() * LOOPS.len()) as u64, 16).batch(200).exhaustive()]
+        vec![Stream::new("limits", 12_000 * m, 60).batch(500), Stream::new("product", (ROUTES.len() * LOOPS.len()) as u64, 16).batch(200).exhaustive(), Stream::new("frameless", 1500 * m, 24).batch(100)]
     }
     fn rule(&self) -> String {
-        format!("programs = {{{} re-entry routes (call, new, accessors, every Proxy trap used, iterator protocol, toPrimitive/valueOf/toString, Array/TypedArray/Map/Set callbacks, sort comparator, replace callbacks, JSON toJSON/replacer/reviver, Reflect.apply/construct, call/apply/bind, promise executor, thenable getter, tagged template, direct/indirect eval, Function(), class static block/field initialisers, computed key, default parameter, generators, Symbol.hasInstance/species, getters reached through Object.assign/spread/destructuring/with, super call, then/finally/catch callbacks, async continuation, thenable job, async generator, for-await)}} x {{{} loop forms or recursion through the route}} x {{{} wrappers inside the activation}} x {{{} wrappers around the entry}}; limits drawn around the program's need. Checks: (1) with the loop limit above the need the trace, counters and completion equal the unlimited run; (2) with the limit below the need the host receives RuntimeLimitError from the evaluation or from run_jobs, no 'caught'/'finally'/'cb end'/'rec end' marker is printed, no statement after the limit point runs, the body counter <= limit+2 and the recursion depth <= limit+1. stream product enumerates every route x loop form once. Non-trivial = limit exceeded inside >= 1 try wrapper or through a non-plain-call route; distinct = distinct program + limits", ROUTES.len(), LOOPS.len(), WRAPPERS.len(), WRAPPERS.len())
+        format!("programs = {{{} re-entry routes (call, new, accessors, every Proxy trap used, iterator protocol, toPrimitive/valueOf/toString, Array/TypedArray/Map/Set callbacks, sort comparator, replace callbacks, JSON toJSON/replacer/reviver, Reflect.apply/construct, call/apply/bind, promise executor, thenable getter, tagged template, direct/indirect eval, Function(), class static block/field initialisers, computed key, default parameter, generators, Symbol.hasInstance/species, getters reached through Object.assign/spread/destructuring/with, super call, then/finally/catch callbacks, async continuation, thenable job, async generator, for-await)}} x {{{} loop forms or recursion through the route}} x {{{} wrappers inside the activation}} x {{{} wrappers around the entry}}; limits drawn around the program's need. Checks: (1) with the loop limit above the need the trace, counters and completion equal the unlimited run; (2) with the limit below the need the host receives RuntimeLimitError from the evaluation or from run_jobs, no 'caught'/'finally'/'cb end'/'rec end' marker is printed, no statement after the limit point runs, the body counter <= limit+2 and the recursion depth <= limit+1. stream product enumerates every route x loop form once; stream frameless = {} recursion forms that nest activations without any user-function call (a string that evals itself directly/indirectly, chains of generators delegating through yield*/for-of/spread/eval built iteratively and resumed once) under the same wrappers and the same checks. Non-trivial = limit exceeded inside >= 1 try wrapper or through a non-plain-call route; distinct = distinct program + limits", ROUTES.len(), LOOPS.len(), WRAPPERS.len(), WRAPPERS.len(), FRAMELESS.len())
     }
     fn run_case(&self, _env: &mut Env, stream: &str, index: u64, tape: &[u8]) -> CaseOut {
         if stream == "product" {
@@ -147,7 +147,7 @@ impl Prop for C08 {
             let desc = format!("route={} form={} wrappers={}/{}", p.route, p.form, p.wrappers.0, p.wrappers.1);
             return self.check(&p.src, p.kind, p.need, p.is_async, &desc, tape);
         }
-        let p = generate(tape);
+        let p = if stream == "frameless" { generate_frameless(tape) } else { generate(tape) };
         let desc = format!("route={} form={} wrappers={}/{}", p.route, p.form, p.wrappers.0, p.wrappers.1);
         self.check(&p.src, p.kind, p.need, p.is_async, &desc, &tape[tape.len().min(8)..])
     }
